@@ -301,6 +301,31 @@ def codecUnpack (typ : String) (rd : String) : String :=
       | none => "none"
   | _, _ => "bad-op"
 
+def parseFVal (tok : String) : Option (String × Len.FVal) :=
+  match tok.splitOn "=" with
+  | [f, v] =>
+    (match v.splitOn ":" with
+     | ["n", x] => x.toNat?.map (fun k => (f, Len.FVal.n k))
+     | ["s", h] => (if h == "-" then some [] else unhex h).map (fun b => (f, Len.FVal.s b))
+     | ["ip", h] => (if h == "-" then some [] else unhex h).map (fun b => (f, Len.FVal.ip b))
+     | ["l", h] =>
+       (if h == "-" then some [] else (h.splitOn ",").mapM (fun (x : String) => if x == "~" then some [] else unhex x)).map
+         (fun l => (f, Len.FVal.ss l))
+     | ["y", h] =>
+       (if h == "-" then some [] else (h.splitOn ",").mapM (fun (x : String) => x.toNat?)).map (fun l => (f, Len.FVal.ts l))
+     | _ => none)
+  | _ => none
+
+def lenRROp (typ owner : String) (toks : List String) : String :=
+  match (if owner == "-" then some [] else unhex owner), toks.mapM parseFVal with
+  | some o, some fs =>
+    (match Len.planOf typ with
+     | none => "no-plan"
+     | some _ => match Len.lenRR typ o fs with
+       | some n => toString n
+       | none => "uncovered")
+  | _, _ => "bad-op"
+
 def showRRm (r : MU.RRm) : String :=
   let nm := if r.name.isEmpty then "-" else hex r.name
   let body := match r.body with
@@ -496,6 +521,7 @@ def runOp (op : String) (args : List String) : String :=
   | "spec.zone", args => zoneOp true args
   | "codec.pack", typ :: vals => codecPack typ vals
   | "codec.unpack", [typ, rd] => codecUnpack typ rd
+  | "len.rr", typ :: owner :: toks => lenRROp typ owner toks
   | "msg.repack", [m] =>
     match unhex m with
     | some msg => (match MU.unpackMsg msg with
